@@ -197,7 +197,9 @@ func (w *hijackWatch) receive() {
 			}
 			asts, ok := event.Object.(*asv1.StatefulSet)
 			if !ok {
-				panic("unreachable")
+				// not a StatefulSet: an Error event carries a *metav1.Status. Relay it as it is.
+				w.result <- event
+				continue
 			}
 			sts, err := ToBuiltinStatefulSet(asts)
 			if err != nil {
